@@ -23,14 +23,14 @@ RULE = (
     "with notes lacking ZIDs), edited after indexing (edits and new notes on a later day, then `db reindex`: "
     "stamps + new ZIDs), mixed with page add / delete / rename.  The command is first run un-faulted under an "
     "effect interposer that records the ordered external effects on the notes directory (write_text, "
-    "open-for-write = truncation, flush of the written data, unlink, mkdir, touch, rename, database commit).  "
+    "open-for-write = truncation, flush of the written data, unlink, mkdir, touch, rename, replace, database commit).  "
     "Then for EVERY effect index i the pre-state is restored and the command is run with a crash injected "
     "immediately before effect i (thorough tier: also a torn variant of every file write: first half of the data, "
     "then the crash), followed by one un-faulted rerun of the same command.  Oracle after the rerun: exit 0; all "
     "pages error-free and index == recompiled files field by field; files equal those of the uninterrupted run "
-    "modulo the identity of freshly allocated ZIDs; no ZID on two notes; no original line lost (at boundaries inside "
-    "the window of the known finding 'page-replacement-not-atomic' everything but the modify-date stamps is still "
-    "compared).  evaluations = "
+    "modulo the identity of freshly allocated ZIDs; no ZID on two notes; no original line lost (boundaries inside "
+    "the window of an open known finding are not skipped: they are checked with that finding's one symptom factored "
+    "out).  evaluations = "
     "crash runs (about one boundary in nine is repeated in a real process killed with os._exit(137) and rerun in a "
     "real process); non-trivial = distinct (scenario, boundary) whose crash left a state different from both the "
     "initial and the final one."
